@@ -463,6 +463,26 @@ class Walker:
                     c = canon(e)
                     if c:
                         _ALIASES[vid] = c
+                # `const auto n = v.size();` of a container this function never resizes: a name for v.size()
+                if e.get('kind') == 'CXXMemberCallExpr' and strip(children(e)[0]).get('name') in ('size', 'length') \
+                        and len(children(e)) == 1:
+                    obj = children(strip(children(e)[0]))
+                    oc = canon(obj[0]) if obj else None
+                    c = canon(e)
+                    if c and oc:
+                        mutated = False
+                        for y in walk(self.func.body):
+                            if y.get('kind') == 'CXXMemberCallExpr':
+                                cal = strip(children(y)[0])
+                                if cal.get('name') in ('push_back', 'emplace_back', 'resize', 'erase', 'clear', 'insert',
+                                                       'pop_back', 'assign', 'swap', 'emplace', 'reserve') and \
+                                        children(cal) and canon(children(cal)[0]) == oc:
+                                    mutated = mutated or cal.get('name') != 'reserve'
+                            for ap in _assigned_paths(y):
+                                if ap == oc:
+                                    mutated = True
+                        if not mutated:
+                            _ALIASES[vid] = c
         if self.func.body is not None:
             self.stmt(self.func.body, set())
 
